@@ -34,7 +34,7 @@ PROP = dict(
                            "hash:high-bit-word": 40000, "hash:high-bit-word-fragmented": 20000,
                            "hash:high-bit-registered-terminated-form": 8000, "hash:high-bit-registered-counted-form": 8000,
                            "monitor:hash-forms-compared": 500000, "monitor:hash-forms-high-bit": 200000}),
-              dict(name="c11_cxx", src=["c11_cxx.cpp"], libs=["mpt++", "mptio", "mptplot", "mptcore"], batch=512, lsan=True,
+              dict(name="c11_cxx", memcheck=500, src=["c11_cxx.cpp"], libs=["mpt++", "mptio", "mptplot", "mptcore"], batch=512, lsan=True,
                    floors={"dispatch::set_handler": 100000, "dispatch::set_handler(clear)": 50000, "dispatch::set_default": 50000,
                            "dispatch::set_error": 20000, "dispatch::~dispatch": 20000, "monitor:set-default-registered": 10000,
                            "emit:delivered-registered": 50000, "emit:delivered-default": 5000, "monitor:lifetime-accounted": 100000,
